@@ -107,6 +107,13 @@ fn rid_paths(s: &str) -> Value {
         "smile": verdict(conjure_serde::smile::client_from_slice::<ResourceIdentifier>(&smile), r),
         "any": verdict(Any::new(s).unwrap().deserialize_into::<ResourceIdentifier>(), r),
         "from_plain": verdict(ResourceIdentifier::from_plain(s), r),
+        "clone_from": verdict(ResourceIdentifier::from_str(s).map(|t| {
+            let mut slot: ResourceIdentifier = "ri.some-service.an-instance.a-type.and.a.locator".parse().unwrap();
+            slot.clone_from(&t);
+            let mut list = vec![slot.clone(), "ri.x..y.z".parse().unwrap()];
+            list.clone_from(&vec![t.clone(), t.clone()]);
+            list.pop().unwrap()
+        }), r),
         "components": comps,
     });
     v["decoders"] = Value::Object(dec);
